@@ -648,6 +648,10 @@ class Analyzer:
         if isinstance(n, ast.Attribute) and isinstance(n.ctx, ast.Load) and n.attr == "es" and \
                 isinstance(n.value, ast.Attribute) and self.is_self(n.value.value) and n.value.attr == "graph":
             return {Path(reads=frozenset([LA]))}
+        if isinstance(n, ast.Subscript) and isinstance(n.ctx, ast.Load) and isinstance(n.value, ast.Name) and \
+                self.aliases.get(n.value.id) == LA:
+            # e[name] on an edge of `for e in self.graph.es` reads a link attribute
+            return {Path(reads=frozenset([LA]))}
         if isinstance(n, ast.Call):
             return self.call(n)
         return {Path()}
